@@ -174,8 +174,9 @@ prop("C09", ["ident_quote", "ids_names", "rel_names"],
      not_covered="content of the identifier regex and of the keyword tables; freshness of generated names against user names that are not registered yet; "
                  "the order in which assign_names visits the declarations (a user table named like a generated name is only protected if it is visited first)")
 claim("C09",
-      "PARTIAL. Proved on the real code: translate_ident_part never changes the identifier text, emits it bare only if it is simple AND not a keyword "
-      "(case-insensitively, general + dialect list) AND the dialect quotes conditionally, otherwise with the dialect's quote character (IQ1-3); "
+      "PARTIAL. Proved on the real code: translate_ident_part emits an identifier bare - unchanged - only if it is simple AND not a keyword "
+      "(case-insensitively, general + dialect list) AND the dialect quotes conditionally, otherwise with the dialect's quote character and with every occurrence of that "
+      "character in the name doubled, which is what a SQL lexer reads back as the name and what sqlparser's printer leaves alone (IQ1, IQ1q, IQ2-3, QI1); "
       "is_keyword is exactly membership of the upper-cased text in the keyword sets (IK1, DK1); ids are handed out strictly increasing and above every "
       "loaded id (IG1-3, SK1); names of one generator are pairwise distinct (NG1); at a pipeline split a re-declared column gets a name different from "
       "every name given at that split and the name is recorded (AS1a-c); every CTE gets a name different from the names of all CTEs named before it and every "
